@@ -7,6 +7,8 @@
 // LICENSE file in the root of the Project.
 
 #include "BaseTagHDF5.hpp"
+
+#include <set>
 #include <nix/NDArray.hpp>
 #include <nix/util/util.hpp>
 #include "DataArrayHDF5.hpp"
@@ -105,10 +107,14 @@ bool BaseTagHDF5::removeReference(const std::string &name_or_id) {
 
 
 void BaseTagHDF5::references(const std::vector<DataArray> &refs_new) {
-    // all new references must exist in this block before the old ones are dropped
+    // all new references must exist in this block, and only once in the list, before the old ones are dropped
+    std::set<std::string> ids_new;
     for (const auto &ref : refs_new) {
         if (!ref || !block()->hasEntity({ref.id(), ObjectType::DataArray})) {
             throw std::runtime_error("BaseTagHDF5::references: DataArray not found in block!");
+        }
+        if (!ids_new.insert(ref.id()).second) {
+            throw std::runtime_error("BaseTagHDF5::references: DataArray given more than once!");
         }
     }
     while (referenceCount() > 0) {
